@@ -212,50 +212,56 @@ impl Property for C08 {
             table.push((budget, keys));
         }
         let top = &table.last().unwrap().1;
-        let top_agree = top.iter().all(|k| k.2 == top[0].2);
+        // a line anywhere in the job whose leading literal run is split by a blank (input predicate of the listed
+        // matcher finding; the optimised matcher then reports "no match" or lets ANOTHER rule take the line)
+        let ws_split_line = nomatch_lines.iter().any(|(f, l)| ws_splits_leading_literals(&job, f, l))
+            || job.files.iter().filter(|f| f.0.ends_with(".asm")).any(|f| {
+                String::from_utf8_lossy(&f.1).lines().any(|l| {
+                    let lt = l.trim_start();
+                    !lt.is_empty() && !lt.starts_with('#') && !lt.starts_with(';') && !l.contains("=>") && ws_splits_leading_literals(&job, &f.0, l)
+                })
+            });
+        // the four configurations are compared along the four single-switch edges:
+        // (static on/off at matcher on), (static on/off at matcher off), (matcher on/off at static on), (.. at static off)
+        const EDGES: [(usize, usize, &str); 4] = [(0, 2, "matcher"), (1, 3, "matcher"), (0, 1, "static"), (2, 3, "static")];
         for (budget, keys) in &table {
-            for k in 1..4 {
-                if keys[k].2 != keys[0].2 {
-                    let which = if keys[k].0 != keys[0].0 && keys[k].1 == keys[0].1 {
-                        "static"
-                    } else if keys[k].1 != keys[0].1 && keys[k].0 == keys[0].0 {
-                        "matcher"
-                    } else {
-                        "both"
-                    };
-                    // "budget-starved": the only difference is that some configurations report a pure
-                    // convergence error where the others already deliver exactly the result that every
-                    // configuration delivers under the largest budget
-                    let starved = top_agree
-                        && keys.iter().all(|x| x.4 || x.2 == top[0].2)
-                        && keys.iter().any(|x| x.4)
-                        && top[0].2.starts_with("ok|");
+            for (a, b, which) in EDGES {
+                if keys[a].2 == keys[b].2 {
+                    continue;
+                }
+                let clause = if which == "static" {
+                    // "budget-starved": within ONE matcher setting the only difference is that the unoptimised resolver
+                    // reports a pure convergence error where the optimised one already delivers exactly the result that
+                    // both deliver under the largest budget
+                    let (ta, tb) = (&top[a], &top[b]);
+                    let starved = ta.2 == tb.2
+                        && ta.2.starts_with("ok|")
+                        && [&keys[a], &keys[b]].iter().all(|x| x.4 || x.2 == ta.2)
+                        && (keys[a].4 || keys[b].4);
                     if std::env::var("VERIF_DEBUG").is_ok() {
-                        eprintln!("top_agree={} top0={} keys={:?}", top_agree, &top[0].2[..top[0].2.len().min(60)], keys.iter().map(|x| (x.0, x.1, x.4, x.2[..x.2.len().min(40)].to_string())).collect::<Vec<_>>());
+                        eprintln!("edge {}-{} top={} keys={:?}", a, b, &ta.2[..ta.2.len().min(60)], keys.iter().map(|x| (x.0, x.1, x.4, x.2[..x.2.len().min(40)].to_string())).collect::<Vec<_>>());
                     }
-                    let clause = if starved {
-                        // which configurations are the ones that still succeed?
-                        let ok_static: Vec<bool> = keys.iter().filter(|x| !x.4).map(|x| x.0).collect();
-                        if ok_static.iter().all(|s| *s) {
-                            "budget-starved|convergence-error-without-static-optimisation".to_string()
-                        } else {
-                            format!("budget-starved|convergence-error:{}", which)
-                        }
-                    } else if which == "matcher" && nomatch_lines.iter().any(|(f, l)| ws_splits_leading_literals(&job, f, l)) {
-                        "ws-splits-leading-literals|switch-changes-result:matcher".to_string()
+                    if starved && !keys[a].4 {
+                        // the configuration WITH the static optimisation is the one that still succeeds
+                        "budget-starved|convergence-error-without-static-optimisation".to_string()
+                    } else if starved {
+                        "budget-starved|convergence-error:static".to_string()
                     } else {
-                        format!("switch-changes-result:{}", which)
-                    };
-                    let detail = format!(
-                        "budget {}: (static={}, matcher={}) -> {} ; (static={}, matcher={}) -> {}",
-                        budget, keys[0].0, keys[0].1, keys[0].3, keys[k].0, keys[k].1, keys[k].3
-                    );
-                    if let Some(v) = ctx.judge(clause, detail) {
-                        ctx.want_render = true;
-                        ctx.render(|| job_json(&job));
-                        return v;
+                        "switch-changes-result:static".to_string()
                     }
-                    break;
+                } else if ws_split_line {
+                    "ws-splits-leading-literals|switch-changes-result:matcher".to_string()
+                } else {
+                    "switch-changes-result:matcher".to_string()
+                };
+                let detail = format!(
+                    "budget {}: (static={}, matcher={}) -> {} ; (static={}, matcher={}) -> {}",
+                    budget, keys[a].0, keys[a].1, keys[a].3, keys[b].0, keys[b].1, keys[b].3
+                );
+                if let Some(v) = ctx.judge(clause, detail) {
+                    ctx.want_render = true;
+                    ctx.render(|| job_json(&job));
+                    return v;
                 }
             }
         }
